@@ -8,3 +8,5 @@ import VProps.C06
 #print axioms V.C06.one_bad_fails
 #print axioms V.C06.bad_sender_rejects
 #print axioms V.C06.no_panic
+#print axioms V.C06.pseudo_sender_required
+#print axioms V.C06.pseudo_mapping_signers_valid
